@@ -1,11 +1,13 @@
 """
-The RNG seam: every random draw graphiq makes goes through numpy.random.{randint,choice,shuffle,seed,default_rng}
-or random.{seed,choices,uniform,choice}.  `OwnedRNG` replaces those attributes for the duration of a `with` block.
+The RNG seam: every random draw graphiq makes goes through numpy.random.{randint,choice,shuffle,seed,default_rng,...}
+or random.{seed,choices,uniform,choice,...}.  `OwnedRNG` replaces those attributes for the duration of a `with` block.
 
-owned mode  : values come from simulator streams (random.Random derived from the run seed); the measurement
-              outcome sites can be scripted (outcome scheduler) and other sites can be 'buggified' (extreme or
-              duplicate-but-legal answers).  Every draw is logged as (site, kind, value).
-observe mode: draws pass through to the real generators and are only logged (used where the real seeding
+owned mode  : values come from simulator-owned generators - a numpy RandomState, numpy Generators and a
+              random.Random, all seeded from the run's stream, so that shapes, dtypes and corner-case semantics are
+              numpy's own - except that (a) the two measurement-outcome sites are answered by the outcome scheduler
+              (OutcomeScript) and (b) other sites can be 'buggified' with extreme or duplicate-but-legal answers.
+              Every draw is logged as (site, kind, value).
+observe mode: draws pass through to the real global generators and are only logged (used where the real seeding
               mechanism is the thing under test).
 Logging never draws from a PRNG.
 """
@@ -27,6 +29,18 @@ def _site():
             return fn.rsplit("/", 1)[1] + ":" + f.f_code.co_name
         f = f.f_back
     return "ext"
+
+
+def _summ(v):
+    if isinstance(v, np.ndarray):
+        return v.tolist() if v.size <= 64 and v.dtype != object else f"array{v.shape}"
+    if isinstance(v, (np.integer,)):
+        return int(v)
+    if isinstance(v, (np.floating,)):
+        return float(v)
+    if isinstance(v, (int, float, str, type(None))):
+        return v
+    return type(v).__name__
 
 
 class OutcomeScript:
@@ -59,122 +73,75 @@ class OutcomeScript:
 
 
 class _GenProxy:
-    """stands in for numpy Generator returned by default_rng; supports what graphiq uses"""
+    """stands in for the numpy Generator returned by default_rng: delegates to a real Generator the simulator seeded;
+    fault rng_duplicate replaces answers by repeats of earlier answers / the identity permutation (all legal values)"""
 
     def __init__(self, owner, seed):
         self.o = owner
-        self.seed = seed
-        # a seeded generator must be a pure function of its seed; a seedless one takes the simulator's stream
-        self.r = _pyrandom.Random(f"gen/{seed}") if seed is not None else owner.lib
-        self.hist = []
+        if seed is None:
+            seed = owner.lib.randrange(2**63)
+        self.g = owner.real["default_rng"](seed)
+        self.perm_hist = []
 
     def _bug(self, kind):
         return self.o.buggify and self.o.bug.random() < self.o.bug_rate.get(kind, 0)
 
-    def permutation(self, n):
+    def permutation(self, x, axis=0):
         site = _site()
-        if isinstance(n, (int, np.integer)):
-            items = list(range(int(n)))
-        else:
-            items = list(n)
-        if self._bug("rng_duplicate") :
-            if self.hist and self.o.bug.random() < 0.6:
-                out = list(self.o.bug.choice(self.hist))
-                if len(out) != len(items):
-                    out = list(items)
+        out = self.g.permutation(x, axis=axis)
+        if isinstance(x, (int, np.integer)) and self._bug("rng_duplicate"):
+            same = [h for h in self.perm_hist if len(h) == int(x)]
+            if same and self.o.bug.random() < 0.6:
+                out = np.array(self.o.bug.choice(same))
             else:
-                out = list(items)  # identity
+                out = np.arange(int(x))
             self.o.ctx_fault("rng_duplicate")
-        else:
-            out = list(items)
-            self.r.shuffle(out)
-        self.hist.append(tuple(out))
-        self.o.log(site, "gen.permutation", out)
-        return np.array(out)
+        if isinstance(x, (int, np.integer)):
+            self.perm_hist.append(tuple(int(v) for v in out))
+        self.o.log(site, "gen.permutation", _summ(out))
+        return out
 
-    def choice(self, a, size=None, replace=True, p=None, **kw):
+    def choice(self, a, size=None, replace=True, p=None, axis=0, shuffle=True):
         site = _site()
-        if isinstance(a, (int, np.integer)):
-            items = list(range(int(a)))
-        else:
-            items = list(a)
-        n = len(items)
-        single = size is None
-        k = 1 if single else int(size if not isinstance(size, tuple) else size[0])
-        idxs = []
-        if p is not None:
-            cum = np.cumsum(np.asarray(p, dtype=float))
-        for j in range(k):
-            if self._bug("rng_duplicate") and idxs and replace:
-                i = idxs[-1]
-                self.o.ctx_fault("rng_duplicate")
-            elif p is not None:
-                u = self.r.random() * cum[-1]
-                i = int(np.searchsorted(cum, u, side="right"))
-                i = min(i, n - 1)
-                while p[i] <= 0:
-                    i = (i + 1) % n
-            else:
-                i = self.r.randrange(n)
-            if not replace:
-                tries = 0
-                while i in idxs:
-                    i = (i + 1) % n
-                    tries += 1
-            idxs.append(i)
-        self.o.log(site, "gen.choice", idxs)
-        if single:
-            return items[idxs[0]]
-        if isinstance(a, (int, np.integer)):
-            return np.array([items[i] for i in idxs])
-        try:
-            return np.array([items[i] for i in idxs])
-        except Exception:
-            out = np.empty(len(idxs), dtype=object)
-            for j, i in enumerate(idxs):
-                out[j] = items[i]
-            return out
+        out = self.g.choice(a, size=size, replace=replace, p=p, axis=axis, shuffle=shuffle)
+        if replace and isinstance(out, np.ndarray) and out.ndim >= 1 and len(out) >= 2 and self._bug("rng_duplicate"):
+            # sampling with replacement may legally repeat: make some rows copies of the first one
+            out = out.copy()
+            for j in range(1, len(out)):
+                if self.o.bug.random() < 0.5:
+                    out[j] = out[0]
+            self.o.ctx_fault("rng_duplicate")
+        self.o.log(site, "gen.choice", _summ(out))
+        return out
 
-    def integers(self, low, high=None, size=None, **kw):
+    def integers(self, *a, **k):
         site = _site()
-        if high is None:
-            low, high = 0, low
-        if size is None:
-            v = self.r.randrange(int(low), int(high))
-            self.o.log(site, "gen.integers", v)
-            return v
-        vals = [self.r.randrange(int(low), int(high)) for _ in range(int(size))]
-        self.o.log(site, "gen.integers", vals)
-        return np.array(vals)
+        out = self.g.integers(*a, **k)
+        self.o.log(site, "gen.integers", _summ(out))
+        return out
 
-    def random(self, size=None):
+    def random(self, *a, **k):
         site = _site()
-        if size is None:
-            v = self.r.random()
-            self.o.log(site, "gen.random", v)
-            return v
-        vals = [self.r.random() for _ in range(int(size))]
-        self.o.log(site, "gen.random", len(vals))
-        return np.array(vals)
+        out = self.g.random(*a, **k)
+        self.o.log(site, "gen.random", _summ(out))
+        return out
 
-    def shuffle(self, x):
+    def shuffle(self, x, axis=0):
         site = _site()
-        idx = list(range(len(x)))
-        self.r.shuffle(idx)
-        vals = [x[i] for i in idx]
-        for j, v in enumerate(vals):
-            x[j] = v
-        self.o.log(site, "gen.shuffle", idx)
+        self.g.shuffle(x, axis=axis)
+        self.o.log(site, "gen.shuffle", len(x))
+
+    def __getattr__(self, name):  # anything else: numpy's own behaviour
+        return getattr(self.g, name)
 
 
 class OwnedRNG:
-    PATCH_NP = ("randint", "choice", "shuffle", "seed", "default_rng", "rand", "random", "permutation")
-    PATCH_PY = ("seed", "choices", "uniform", "choice", "random", "randint", "sample", "shuffle")
+    PATCH_NP = ("randint", "choice", "shuffle", "seed", "default_rng", "rand", "random", "permutation", "random_sample", "uniform", "normal")
+    PATCH_PY = ("seed", "choices", "uniform", "choice", "random", "randint", "sample", "shuffle", "randrange")
 
     def __init__(self, run_seed_rng, outcomes=None, ctx=None, buggify=False, bug_rate=None, bug_rng=None, observe=False):
-        """run_seed_rng: random.Random for library draws; outcomes: OutcomeScript or None (then library stream)"""
+        """run_seed_rng: random.Random seeding the owned generators; outcomes: OutcomeScript or None"""
         self.lib = run_seed_rng
-        self.ext = _pyrandom.Random(12345)
         self.outcomes = outcomes
         self.ctx = ctx
         self.buggify = buggify
@@ -183,6 +150,7 @@ class OwnedRNG:
         self.observe = observe
         self.draws = []
         self._saved = None
+        self.real = {}
 
     def ctx_fault(self, kind):
         if self.ctx is not None:
@@ -191,259 +159,130 @@ class OwnedRNG:
     def log(self, site, kind, value):
         self.draws.append((site, kind, value))
 
-    def _stream(self, site):
-        return self.ext if site == "ext" else self.lib
+    def _np(self, site):
+        return self.np_ext if site == "ext" else self.np_lib
+
+    def _py(self, site):
+        return self.py_ext if site == "ext" else self.py_lib
 
     # ----- numpy.random replacements (owned mode)
     def _randint(self, low, high=None, size=None, dtype=int):
         site = _site()
-        if high is None:
-            low, high = 0, low
-        low, high = int(low), int(high)
-        if site in MEAS_SITES and self.outcomes is not None and size is None and (low, high) == (0, 2):
+        if site in MEAS_SITES and self.outcomes is not None and size is None and (low, high) in ((0, 2), (2, None)):
             v = self.outcomes.next(site)
             self.log(site, "outcome", v)
             return v
-        r = self._stream(site)
-
-        def one():
-            if self.buggify and site != "ext" and self.bug.random() < self.bug_rate.get("rng_extreme", 0):
+        if self.buggify and site != "ext" and size is None and self.bug.random() < self.bug_rate.get("rng_extreme", 0):
+            lo, hi = (0, int(low)) if high is None else (int(low), int(high))
+            if hi > lo:
                 self.ctx_fault("rng_extreme")
-                return low if self.bug.random() < 0.5 else high - 1
-            return r.randrange(low, high)
-
-        if size is None:
-            v = one()
-            self.log(site, "randint", [low, high, v])
-            return v
-        n = int(size) if not isinstance(size, tuple) else int(np.prod(size))
-        vals = [one() for _ in range(n)]
-        self.log(site, "randint", [low, high, vals])
-        arr = np.array(vals)
-        return arr.reshape(size) if isinstance(size, tuple) else arr
+                v = lo if self.bug.random() < 0.5 else hi - 1
+                self.log(site, "randint!", [lo, hi, v])
+                return v
+        v = self._np(site).randint(low, high, size, dtype)
+        self.log(site, "randint", _summ(v))
+        return v
 
     def _choice(self, a, size=None, replace=True, p=None):
         site = _site()
-        if isinstance(a, (int, np.integer)):
-            items = list(range(int(a)))
-        else:
-            items = list(a)
-        n = len(items)
-        if site in MEAS_SITES and self.outcomes is not None and size is None and n == 2 and p is not None:
+        if site in MEAS_SITES and self.outcomes is not None and size is None and p is not None and len(p) == 2:
+            items = list(range(a)) if isinstance(a, (int, np.integer)) else list(a)
             v = self.outcomes.next(site, p=np.asarray(p, dtype=float))
             self.log(site, "outcome", [v, [round(float(x), 12) for x in p]])
             return items[v]
-        r = self._stream(site)
-        k = 1 if size is None else (int(size) if not isinstance(size, tuple) else int(np.prod(size)))
-        pp = None if p is None else np.asarray(p, dtype=float)
-        if pp is not None:
-            if abs(pp.sum() - 1) > 1e-8 or (pp < 0).any():
-                raise ValueError("probabilities do not sum to 1")
-            cum = np.cumsum(pp)
-        idxs = []
-        for j in range(k):
-            if self.buggify and site != "ext" and self.bug.random() < self.bug_rate.get("rng_extreme", 0):
+        if self.buggify and site != "ext" and size is None and self.bug.random() < self.bug_rate.get("rng_extreme", 0):
+            items = list(range(a)) if isinstance(a, (int, np.integer)) else list(a)
+            pp = None if p is None else np.asarray(p, dtype=float)
+            legal = [i for i in range(len(items)) if pp is None or pp[i] > 0]
+            if legal and (pp is None or abs(pp.sum() - 1) < 1e-8):
                 self.ctx_fault("rng_extreme")
-                legal = [i for i in range(n) if pp is None or pp[i] > 0]
                 if pp is None:
                     i = legal[0] if self.bug.random() < 0.5 else legal[-1]
                 else:
                     i = min(legal, key=lambda t: (pp[t], t))  # least likely legal index
-            elif pp is not None:
-                u = r.random() * cum[-1]
-                i = min(int(np.searchsorted(cum, u, side="right")), n - 1)
-                while pp[i] <= 0:
-                    i = (i + 1) % n
-            else:
-                i = r.randrange(n)
-            if not replace:
-                while i in idxs:
-                    i = (i + 1) % n
-            idxs.append(i)
-        self.log(site, "choice", idxs)
-        if size is None:
-            return items[idxs[0]]
-        return np.array([items[i] for i in idxs])
+                self.log(site, "choice!", i)
+                return items[i] if not isinstance(a, (int, np.integer)) else np.int64(i)
+        v = self._np(site).choice(a, size, replace, p)
+        self.log(site, "choice", _summ(v))
+        return v
 
-    def _shuffle(self, x):
-        site = _site()
-        r = self._stream(site)
-        idx = list(range(len(x)))
-        r.shuffle(idx)
-        vals = [x[i] for i in idx]
-        for j, v in enumerate(vals):
-            x[j] = v
-        self.log(site, "shuffle", idx)
+    def _wrap_np(self, name):
+        def f(*a, **k):
+            site = _site()
+            v = getattr(self._np(site), name)(*a, **k)
+            self.log(site, name, _summ(v) if name != "shuffle" else None)
+            return v
 
-    def _permutation(self, x):
-        site = _site()
-        r = self._stream(site)
-        items = list(range(int(x))) if isinstance(x, (int, np.integer)) else list(x)
-        r.shuffle(items)
-        self.log(site, "permutation", len(items))
-        return np.array(items)
+        return f
 
     def _np_seed(self, seed=None):
         site = _site()
-        self.log(site, "np.seed", seed)
-        if site != "ext":
-            self.lib.seed(f"np/{seed}")
+        self.log(site, "np.seed", _summ(seed))
+        self._np(site).seed(seed)
 
     def _default_rng(self, seed=None):
         site = _site()
-        self.log(site, "default_rng", None if seed is None else int(seed) if isinstance(seed, (int, np.integer)) else str(seed))
+        self.log(site, "default_rng", _summ(seed))
+        if site == "ext":
+            return self.real["default_rng"](seed if seed is not None else self.py_ext.randrange(2**63))
         return _GenProxy(self, seed)
 
-    def _rand(self, *shape):
-        site = _site()
-        r = self._stream(site)
-        if not shape:
-            v = r.random()
-            self.log(site, "rand", v)
+    def _wrap_py(self, name):
+        def f(*a, **k):
+            site = _site()
+            v = getattr(self._py(site), name)(*a, **k)
+            if name == "choices":
+                self.log(site, "py.choices", len(v))
+            elif name in ("seed", "shuffle"):
+                self.log(site, "py." + name, _summ(a[0]) if name == "seed" and a else None)
+            elif name in ("choice", "sample"):
+                self.log(site, "py." + name, None)
+            else:
+                self.log(site, "py." + name, _summ(v))
             return v
-        n = int(np.prod(shape))
-        self.log(site, "rand", n)
-        return np.array([r.random() for _ in range(n)]).reshape(shape)
 
-    def _random(self, size=None):
-        if size is None:
-            return self._rand()
-        return self._rand(*((size,) if isinstance(size, int) else tuple(size)))
+        return f
 
-    # ----- python random replacements
-    def _py_seed(self, a=None, version=2):
-        site = _site()
-        self.log(site, "py.seed", a if isinstance(a, (int, type(None))) else str(a))
-        if site != "ext":
-            self.pylib.seed(f"py/{a}")
-
-    def _py_choices(self, population, weights=None, *, cum_weights=None, k=1):
-        site = _site()
-        r = self.pylib if site != "ext" else self.ext
-        n = len(population)
-        idx = [r.randrange(n) for _ in range(k)] if weights is None and cum_weights is None else None
-        if idx is None:
-            out = r.choices(range(n), weights=weights, cum_weights=cum_weights, k=k)
-            idx = list(out)
-        self.log(site, "py.choices", idx)
-        return [population[i] for i in idx]
-
-    def _py_uniform(self, a, b):
-        site = _site()
-        r = self.pylib if site != "ext" else self.ext
-        v = r.uniform(a, b)
-        self.log(site, "py.uniform", v)
-        return v
-
-    def _py_choice(self, seq):
-        site = _site()
-        r = self.pylib if site != "ext" else self.ext
-        i = r.randrange(len(seq))
-        self.log(site, "py.choice", i)
-        return seq[i]
-
-    def _py_random(self):
-        site = _site()
-        r = self.pylib if site != "ext" else self.ext
-        return r.random()
-
-    def _py_randint(self, a, b):
-        site = _site()
-        r = self.pylib if site != "ext" else self.ext
-        v = r.randint(a, b)
-        self.log(site, "py.randint", v)
-        return v
-
-    def _py_sample(self, population, k, **kw):
-        site = _site()
-        r = self.pylib if site != "ext" else self.ext
-        idx = r.sample(range(len(population)), k)
-        self.log(site, "py.sample", idx)
-        pop = list(population)
-        return [pop[i] for i in idx]
-
-    def _py_shuffle(self, x):
-        site = _site()
-        r = self.pylib if site != "ext" else self.ext
-        idx = list(range(len(x)))
-        r.shuffle(idx)
-        vals = [x[i] for i in idx]
-        for j, v in enumerate(vals):
-            x[j] = v
-        self.log(site, "py.shuffle", idx)
-
-    # ----- observe mode wrappers
+    # ----- observe mode wrapper
     def _wrap_observe(self, name, fn):
         def w(*a, **k):
             site = _site()
             v = fn(*a, **k)
-            if site in MEAS_SITES and self.outcomes is not None and name in ("np.randint", "np.choice"):
-                pass
-            try:
-                sv = v.tolist() if isinstance(v, np.ndarray) else (int(v) if isinstance(v, (int, np.integer)) else (float(v) if isinstance(v, (float, np.floating)) else None))
-            except Exception:
-                sv = None
-            if name == "py.choices":
-                sv = len(v)
             if name in ("np.seed", "py.seed"):
-                sv = a[0] if a else None
+                sv = _summ(a[0]) if a else None
+            elif name in ("py.choices",):
+                sv = len(v)
+            elif name in ("py.choice", "np.shuffle"):
+                sv = None
+            else:
+                sv = _summ(v)
             self.log(site, name, sv)
             return v
 
         return w
 
     def __enter__(self):
-        self.pylib = _pyrandom.Random(self.lib.random())
         self._saved = {("np", n): getattr(npr, n) for n in self.PATCH_NP}
         self._saved.update({("py", n): getattr(_pyrandom, n) for n in self.PATCH_PY})
+        self.real = {"default_rng": self._saved[("np", "default_rng")]}
         if self.observe:
-            for n in ("randint", "choice", "shuffle", "seed"):
+            for n in ("randint", "choice", "shuffle", "seed", "rand", "random", "permutation"):
                 setattr(npr, n, self._wrap_observe("np." + n, self._saved[("np", n)]))
-            for n in ("seed", "choices", "uniform", "choice"):
+            for n in ("seed", "choices", "uniform", "choice", "random", "randint"):
                 setattr(_pyrandom, n, self._wrap_observe("py." + n, self._saved[("py", n)]))
-            if self.outcomes is not None:
-                # outcomes still scripted in observe mode (legal: they are the values a real generator could return)
-                real_randint, real_choice = self._saved[("np", "randint")], self._saved[("np", "choice")]
-
-                def randint(low, high=None, size=None, dtype=int):
-                    site = _site()
-                    if site in MEAS_SITES and size is None:
-                        v = self.outcomes.next(site)
-                        self.log(site, "outcome", v)
-                        return v
-                    v = real_randint(low, high, size)
-                    self.log(site, "np.randint", v.tolist() if isinstance(v, np.ndarray) else int(v))
-                    return v
-
-                def choice(a, size=None, replace=True, p=None):
-                    site = _site()
-                    if site in MEAS_SITES and size is None and p is not None:
-                        v = self.outcomes.next(site, p=np.asarray(p, dtype=float))
-                        self.log(site, "outcome", v)
-                        return list(a)[v]
-                    v = real_choice(a, size, replace, p)
-                    self.log(site, "np.choice", v.tolist() if isinstance(v, np.ndarray) else (int(v) if isinstance(v, (int, np.integer)) else str(v)))
-                    return v
-
-                npr.randint = randint
-                npr.choice = choice
-        else:
-            npr.randint = self._randint
-            npr.choice = self._choice
-            npr.shuffle = self._shuffle
-            npr.seed = self._np_seed
-            npr.default_rng = self._default_rng
-            npr.rand = self._rand
-            npr.random = self._random
-            npr.permutation = self._permutation
-            _pyrandom.seed = self._py_seed
-            _pyrandom.choices = self._py_choices
-            _pyrandom.uniform = self._py_uniform
-            _pyrandom.choice = self._py_choice
-            _pyrandom.random = self._py_random
-            _pyrandom.randint = self._py_randint
-            _pyrandom.sample = self._py_sample
-            _pyrandom.shuffle = self._py_shuffle
+            return self
+        self.np_lib = npr.RandomState(self.lib.randrange(2**32))
+        self.np_ext = npr.RandomState(20240607)
+        self.py_lib = _pyrandom.Random(self.lib.randrange(2**63))
+        self.py_ext = _pyrandom.Random(20240607)
+        npr.randint = self._randint
+        npr.choice = self._choice
+        npr.seed = self._np_seed
+        npr.default_rng = self._default_rng
+        for n in ("shuffle", "rand", "random", "permutation", "random_sample", "uniform", "normal"):
+            setattr(npr, n, self._wrap_np(n))
+        for n in self.PATCH_PY:
+            setattr(_pyrandom, n, self._wrap_py(n))
         return self
 
     def __exit__(self, *a):
